@@ -25,6 +25,7 @@
 #include "hep/mc/multi_channel_summary.hpp"
 
 #include <cmath>
+#include <cstdio>
 #include <fstream>
 #include <iostream>
 #include <string>
@@ -130,8 +131,21 @@ public:
         if ((mode_ == callback_mode::silent_and_write_chkpt) ||
             (mode_ == callback_mode::verbose_and_write_chkpt))
         {
-            std::ofstream out(filename_);
+            // write a temporary file first and move it over the old checkpoint only when it is
+            // complete, so that the file is a valid checkpoint at every instant
+            std::string const temporary = filename_ + ".tmp";
+            std::ofstream out(temporary);
             chkpt.serialize(out);
+            out.close();
+
+            if (out)
+            {
+                std::rename(temporary.c_str(), filename_.c_str());
+            }
+            else
+            {
+                std::remove(temporary.c_str());
+            }
         }
 
         return perform_more_iterations;
